@@ -16,6 +16,7 @@ def hostFreeI : Instr → Bool
   | .host _ _ => false
   | .stream _ _ _ _ body => hostFreeIs body
   | .spawn _ body => hostFreeIs body
+  | .handoff _ _ _ body => hostFreeIs body
   | .join a b => hostFreeIs a && hostFreeIs b
   | .select a b => hostFreeIs a && hostFreeIs b
   | _ => true
